@@ -346,7 +346,7 @@ func checkC05(w *World, r *Report) {
 			return o.Rule == "C14.R2" || o.Rule == "C14.R3" || o.Rule == "C14.R4" || o.Rule == "C14.R5"
 		})
 	}
-	pr.lta.export(r, "C05.R2", []string{"incarnation-replaced-without-Stopped", "Initialized-out-of-order", "Started-out-of-order", "user-message-before-Started", "inbox-started-after-cleanup", "restart-buffer-dropped", "unclassified-delivery", "chain-does-not-end-in-the-receiver"}, "restart order; every delivery goes to the current incarnation's receiver")
+	pr.lta.export(r, "C05.R2", []string{"incarnation-replaced-without-Stopped", "Initialized-out-of-order", "Started-out-of-order", "user-message-before-Started", "inbox-started-after-cleanup", "restart-buffer-dropped", "unclassified-delivery", "chain-does-not-end-in-the-receiver", "inbox-reopened-by-worker"}, "restart order; every delivery goes to the current incarnation's receiver")
 
 	// R2: both recover handlers exist and hand the panic value to the restart function, synchronously
 	evRestart := EvCall("restart", pr.restartFn)
@@ -1561,6 +1561,18 @@ func checkC13(w *World, r *Report) {
 			"inside the chain the Context can show the message or sender of a previous delivery")
 	}
 	_ = n
+	// R5: "inside the chain the Context shows the message and sender of that delivery": the accessors read the fields
+	// the delivery function filled (C01.R2), and no second delivery of the same actor overwrites them meanwhile: one
+	// worker at a time (C02.R1-R4), lifecycle deliveries before the inbox can start a worker (C02.R6)
+	if r.Prop == "C13" {
+		r.Rule("C13.R5", "the Context's accessors show the fields the delivery filled (C01.R2) and stay put during the chain: single worker (C02.R1-R4), no lifecycle delivery next to a running worker (C02.R6)", 8)
+		importRules(w, r, checkC01, "C01", "C13.R5", func(o *Obligation) bool {
+			return o.Rule == "C01.R2" && (strings.HasSuffix(o.Key, "|Context.Message") || strings.HasSuffix(o.Key, "|Context.Sender"))
+		})
+		importRules(w, r, checkC02, "C02", "C13.R5", func(o *Obligation) bool {
+			return o.Rule == "C02.R1" || o.Rule == "C02.R2" || o.Rule == "C02.R3" || o.Rule == "C02.R4" || o.Rule == "C02.R6"
+		})
+	}
 }
 
 // checkApplyMW recognises the descending wrap loop (idiom rule, fail-closed).
